@@ -37,11 +37,12 @@ CHECKS["C12"] = dict(
           "implements them): for every returning run, the branching fraction equals top.bf times the product over the tree "
           "and every particle's multiplicity equals its number of leaves, for ANY solution of the one-step unfolding "
           "equations (unique for acyclic chains), any stable set, any order of the sub-decay mapping; top-level model "
-          "information kept. Unbounded in chain size, multiplicities and depth. Partial correctness: termination of the loop "
-          "is exercised by the correspondence only. Tie: exhaustive small shapes x stable subsets x mapping orders + random "
+          "information kept; TERMINATION: for every acyclic chain the loop returns within (rank of the mother)+1 passes "
+          "(each pass lowers the maximal rank of the substituted particles still present) — total correctness. Unbounded in "
+          "chain size, multiplicities and depth. Tie: exhaustive small shapes x stable subsets x mapping orders + random "
           "chains, exact Fraction arithmetic."),
     design="DESIGN.md §5 C12",
-    technique="Coq proof (loop invariant over a commutative-monoid valuation, Qc and nat instances) + differential correspondence")
+    technique="Coq proof (loop invariant over a commutative-monoid valuation, Qc and nat instances; rank-based termination argument) + differential correspondence")
 
 CHECKS["C09"] = dict(
     text=("Theorems over the model of build_decay_chains on decay tables: for acyclic tables (rank function) the build "
@@ -64,11 +65,12 @@ CHECKS["C11"] = dict(
     text=("Theorems: decay-mode dict round trip returns bf, daughter multiset (and canonical list) and all metadata "
           "(model_params None -> '' by design); final states: one canonical (sorted) order, insensitive to the order given "
           "(any permutation), multiplicities counted, length = number of names, string constructor (names joined by blanks) "
-          "and mapping constructor agree with the list constructor. Unbounded. PARTIAL: the chain-level round trip "
-          "from_dict(to_dict(c)) (incl. repeated decaying particles, finding F4) is modelled (chain_to_dict/build_modes) and "
-          "tied by correspondence + round-trip oracle, but is not yet a theorem."),
+          "and mapping constructor agree with the list constructor; chain level: whatever to_dict writes, from_dict reads back as "
+          "the chain with the same mother whose decays are exactly the part of the original reachable from the mother, each mode "
+          "the DecayMode round trip of the original's, also when a decaying particle occurs several times (finding F4). Unbounded. "
+          "PARTIAL: the parser form (build_decay_chains output) and termination of to_dict are tied by correspondence + oracle."),
     design="DESIGN.md §5 C11",
-    technique="Coq proof (permutation/count_occ, sorting canonical form, str.split model) + differential correspondence")
+    technique="Coq proof (permutation/count_occ, sorting canonical form, str.split model, accumulator invariant for _build_decay_modes) + differential correspondence")
 CHECKS["C13"] = dict(
     text=("Theorems: to_string of a chain is the function `descr` of its single-mode dictionary — first pattern at the top, "
           "second at every nested level, daughters sorted at each level; identical string for any order of daughters and "
